@@ -70,7 +70,7 @@ struct RefLossy {
 impl RefLossy {
     fn add(&mut self, e: u64) -> bool {
         self.n += 1;
-        let b_current = (self.n + self.w - 1) / self.w; // ceil(N / w)
+        let b_current = self.n / self.w + (self.n % self.w != 0) as usize; // ceil(N / w), without overflow for huge w
         let was_new = match self.d.get_mut(&e) {
             Some(x) => {
                 x.0 += 1;
@@ -176,7 +176,7 @@ impl Check for C09 {
                 );
             }
             // (5) size bound
-            let bound = width as f64 * (harmonic((n + width - 1) / width) + 1.0);
+            let bound = width as f64 * (harmonic(n / width + (n % width != 0) as usize) + 1.0);
             if table.len() as f64 > bound {
                 return fail("table-too-large", format!("after {} adds: {} tracked elements > width*(H(ceil(n/width))+1) = {:.1}", n, table.len(), bound));
             }
@@ -226,6 +226,8 @@ fn strategy(tier: Tier) -> BoxedStrategy<Case> {
         2 => (0.002f64..0.999).prop_map(Ctor::Epsilon),
         4 => (1usize..=40).prop_map(Ctor::Width),
         1 => (1usize..=200).prop_map(Ctor::Width),
+        // windows that never end within the stream: the counter must be exact
+        1 => prop_oneof![Just(Ctor::Width(1usize << 40)), Just(Ctor::Width(usize::MAX)), Just(Ctor::Epsilon(1e-9)), Just(Ctor::Epsilon(1e-15))],
     ];
     let stream = prop_oneof![
         5 => prop::collection::vec(prop_oneof![0u16..4, 0u16..30, any::<u16>()], 0..300).prop_map(Stream::Explicit),
@@ -294,7 +296,7 @@ pub fn checks() -> Vec<Box<dyn DynCheck>> {
 }
 
 pub fn run(ctx: &Ctx) {
-    ctx.set_rule("exhaustive: every stream over a 3-element alphabet up to length 10 (thorough: 13, and 4 elements up to length 10) for widths 1..=5 (6), every prefix. generated: with_epsilon(e) / with_width(w) x stream family (explicit shrinkable item lists, uniform, zipf, all-distinct, boundary adversary whose occurrences sit on the first slots after each window end, blocks) x thresholds {epsilon, 2*epsilon, 0, .1, .5, 1, random}; checked at every prefix up to 400, around every window end up to 4000 and at geometric prefixes beyond. Oracle: reference Manku-Motwani lossy counter + exact counts: n(), add's return value, query(0) == reference table, no miss (true >= s*n and > eps*n), no intruder (true < (s-eps)*n), table size <= width*(H(ceil(n/width))+1). Non-trivial: the stream crosses >= 2 window ends and an element was pruned and later re-added. Distinct = (width, stream). evaluations = cases + prefixes checked.");
+    ctx.set_rule("exhaustive: every stream over a 3-element alphabet up to length 10 (thorough: 13, and 4 elements up to length 10) for widths 1..=5 (6), every prefix. generated: with_epsilon(e) / with_width(w) (rarely windows that never end: width 2^40, usize::MAX, epsilon 1e-9, 1e-15) x stream family (explicit shrinkable item lists, uniform, zipf, all-distinct, boundary adversary whose occurrences sit on the first slots after each window end, blocks) x thresholds {epsilon, 2*epsilon, 0, .1, .5, 1, random}; checked at every prefix up to 400, around every window end up to 4000 and at geometric prefixes beyond. Oracle: reference Manku-Motwani lossy counter + exact counts: n(), add's return value, query(0) == reference table, no miss (true >= s*n and > eps*n), no intruder (true < (s-eps)*n), table size <= width*(H(ceil(n/width))+1). Non-trivial: the stream crosses >= 2 window ends and an element was pruned and later re-added. Distinct = (width, stream). evaluations = cases + prefixes checked.");
     ctx.assume("float guard band 1e-9*n on the s*n, epsilon*n and (s-epsilon)*n comparisons");
     ctx.run_regressions(&[&C09]);
     let t = ctx.tier;
